@@ -516,7 +516,9 @@ impl Vtable {
         ) {
             let ty_prefix = ty_prefix(f);
 
-            let (prefix, cast_self) = if f.moves_self || f.return_type == this_ty {
+            // Functions that consume the object, or return a new one by value, are specific to
+            // one container/context flavour of the type
+            let (prefix, cast_self) = if f.moves_self || f.return_type.trim() == container_info.0 {
                 let config_match = config.default_context.as_deref() == Some(context_info.1)
                     && config.default_container.as_deref() == Some(container_info.1);
 
